@@ -317,10 +317,26 @@ def run(ctx):
                   if w.root == "self" and w.attr in ("_frequencies", "_errors2")]
         via = [w for st in ast.walk(fi.node) if isinstance(st, ast.stmt) for w in writes_of(st)
                if w.root == "self" and w.attr in ("frequencies", "errors2")]
-        ctx.check(not direct and len(via) >= 2, "C18.b", f"{fi.qualname}:through-setters",
+        # a local that is just another name for the live arrays must not be changed in place: the setter would then validate
+        # an array that has already been modified
+        CONT = ("frequencies", "errors2", "_frequencies", "_errors2")
+        aliases = set()
+        for st in ast.walk(fi.node):
+            if isinstance(st, ast.Assign) and len(st.targets) == 1:
+                pairs = list(zip(st.targets[0].elts, st.value.elts)) if isinstance(st.targets[0], ast.Tuple) and isinstance(st.value, ast.Tuple) \
+                    and len(st.targets[0].elts) == len(st.value.elts) else [(st.targets[0], st.value)]
+                for t_, v_ in pairs:
+                    if isinstance(t_, ast.Name) and isinstance(v_, ast.Attribute) and isinstance(v_.value, ast.Name) and v_.value.id == "self" and v_.attr in CONT:
+                        aliases.add(t_.id)
+        live = [U(st)[:60] for st in ast.walk(fi.node)
+                if (isinstance(st, ast.AugAssign) and ((isinstance(st.target, ast.Name) and st.target.id in aliases)
+                                                       or (isinstance(st.target, ast.Subscript) and isinstance(st.target.value, ast.Name) and st.target.value.id in aliases)))
+                or (isinstance(st, ast.Assign) and any(isinstance(t_, ast.Subscript) and isinstance(t_.value, ast.Name) and t_.value.id in aliases for t_ in st.targets))]
+        ctx.check(not direct and not live and len(via) >= 2, "C18.b", f"{fi.qualname}:through-setters",
                   f"{len(via)} content stores, all through the validating setters",
                   (f"`{U(direct[0].stmt)[:70]}` bypasses the validating setter: a negative or wrongly shaped result is stored "
-                   "instead of refused") if direct else "content stores not found", fi.where)
+                   "instead of refused") if direct else (f"`{live[0]}` changes the live contents in place through a local alias before the setter validates them"
+                                                         if live else "content stores not found"), fi.where)
     from rules import c13 as _c13
     _c13.check_init_through_setter(ctx, "C18.b", m)
     from rules import c12 as _c12
@@ -406,3 +422,4 @@ def run(ctx):
     # shared with C10.a / C09.c: merge_bins validates (apply_bin_map) before it reshapes; T transposes both arrays
     ctx.borrow("C10", ("HistogramBase.merge_bins:same-map-and-axis", "HistogramBase.merge_bins:no-other-writes"), "C18.a", floor=2)
     ctx.borrow("C09", ("Histogram2D.T",), "C18.b")
+    ctx.borrow("C04", ("HistogramND.fill:grow-then-reshape", "HistogramND.fill_n:grow-then-reshape"), "C18.g", floor=2)
